@@ -15,11 +15,13 @@ def gen(rng: random.Random, tier: str):
         for j in range(rng.randint(0, 2)):
             lits.append({"name": f"lit{j}", "value": rng.randint(-5, 5)}); nodes.append(f"lit{j}")
         for j in range(rng.randint(1, 5)):
-            kind = rng.choice(list(FUNCS) + ["bias", "pop", "topn"])
+            kind = rng.choice(list(FUNCS) + ["bias", "pop", "topn", "cls-nocfg", "inst-nocfg", "cls-bias"])
             if kind in FUNCS:
                 params = FUNCS[kind]
                 edges = [[p, rng.choice(nodes)] for p in params if rng.random() < 0.8]
                 comps.append({"name": f"c{j}", "kind": kind, "edges": edges, "setting": None})
+            elif kind in ("cls-nocfg", "inst-nocfg"):
+                comps.append({"name": f"c{j}", "kind": kind, "edges": [["x", rng.choice(nodes)]] if rng.random() < 0.8 else [], "setting": None})
             else:
                 comps.append({"name": f"c{j}", "kind": kind, "edges": [], "setting": rng.choice([1, 2, 3])})
             nodes.append(f"c{j}")
@@ -46,8 +48,10 @@ def build(case: dict, decl_seed: int | None = None, tweak: str | None = None):
     for ci, c in enumerate(case["comps"]):
         s = c["setting"]
         if tweak == "setting" and s is not None and not any(cc["setting"] is not None for cc in case["comps"][:ci]): s = s + 10
+        if c["kind"] == "cls-nocfg": h[c["name"]] = pb.add_component(c["name"], lc.NoCfgComp); continue          # a component class, to be instantiated by the pipeline
+        if c["kind"] == "cls-bias": h[c["name"]] = pb.add_component(c["name"], BiasScorer, {"damping": s}); continue
         obj = getattr(lc, c["kind"]) if c["kind"] in FUNCS else {"bias": lambda: BiasScorer(damping=s), "pop": lambda: PopScorer(score=["count", "rank", "quantile"][s % 3]),
-                                                                "topn": lambda: TopNRanker(n=s)}[c["kind"]]()
+                                                                "topn": lambda: TopNRanker(n=s), "inst-nocfg": lambda: lc.NoCfgComp()}[c["kind"]]()
         h[c["name"]] = pb.add_component(c["name"], obj)
     for p, n in case["defaults"]: pb.default_connection(p, h[n])
     for c in case["comps"]:
@@ -105,6 +109,10 @@ def run(case: dict, lean: Lean) -> Outcome:
         key = "config hash depends on PYTHONHASHSEED through the input type set"       # the same set rebuilt in another insertion order iterates differently
     if (pb.name is not None or pb.version is not None) and failed and all(("clone: name/version lost" in f) or ("name/version lost" in f) or ("hash changes on reload" in f) or ("hash-mismatch warning" in f) for f in failed):
         key = "from_config drops the pipeline name and version"
+    if any(c["kind"] == "cls-nocfg" for c in case["comps"]) and failed and not any("name/version lost" in f and "hash" not in f for f in failed) \
+            and all(("hash changes on reload" in f) or ("hash-mismatch warning" in f) or ("clone:" in f) for f in failed):
+        # established by comparing the documents: the class form writes `config: null`, the reloaded instance `config: {}`
+        key = "a component class without a configuration class is written with config null but reloads with config {} (hash changes)"
     # declaration order of connections / aliases is irrelevant; any change of content changes the hash
     if build(case, decl_seed=case["decl_seed"]).config_hash() != hash0: failed.append("hash depends on declaration order")
     tweaks = ["name"] + (["setting"] if any(c["setting"] is not None for c in case["comps"]) else []) + (["edge"] if any(c["edges"] for c in case["comps"]) else []) \
